@@ -51,7 +51,7 @@ REWRITES = ["dneg", "demorgan", "commute", "andtop", "orbot", "cons_and_ante", "
 
 def transforms_for(n, sig, quick):
     """The finite menu. A transformation is a tuple interpreted by apply_transform."""
-    T = [("keys", "zero"), ("keys", "rev"), ("keys", "sparse"), ("keys", "sparse0")]
+    T = [("keys", "zero"), ("keys", "rev"), ("keys", "sparse"), ("keys", "sparse0"), ("keys", "shift"), ("keys", "gap")]
     if n <= 3:
         T += [("keys", "perm", p) for p in itertools.permutations(range(1, n + 1)) if list(p) != list(range(1, n + 1))]
         T += [("order", p) for p in itertools.permutations(range(n)) if list(p) != list(range(n))]
@@ -79,6 +79,10 @@ def apply_transform(t, sig, kconds, queries):
             ks = [10 * (i + 1) for i in range(n)]
         elif t[1] == "sparse0":
             ks = [7 * i for i in range(n)]
+        elif t[1] == "shift":          # 2..n+1: contains len+1
+            ks = [i + 2 for i in range(n)]
+        elif t[1] == "gap":            # 1,3,5,..: contains len+1 for n = 2
+            ks = [2 * i + 1 for i in range(n)]
         else:
             ks = list(t[2])
         return sig, [(k, c) for k, (_old, c) in zip(ks, kconds)], queries
@@ -120,7 +124,7 @@ class C12(Check):
     rule = ("E-in, metamorphic. Bases: structure representatives of the pairs over {a,b} and of <=3-subsets of literal "
             "conditionals over {a,b,c} (strongly and weakly consistent), each with a fixed query list (semantic-class / "
             "literal + type-level queries). For every base EVERY transformation of a finite menu is applied: key maps "
-            "{0..n-1, n..1, 10,20,.., 0,7,14,.., all permutations of 1..n}, all dict orders, atom permutations and fresh "
+            "{0..n-1, n..1, 10,20,.., 0,7,14,.., 2..n+1, 1,3,5,.., all permutations of 1..n}, all dict orders, atom permutations and fresh "
             "names, signature reversed / extended by unused atoms, and seven equivalence-preserving rewrites of every "
             "antecedent/consequent of the base or of the query (double negation, De Morgan, commutation, ,Top, Bottom;, "
             "B->A,B, B->B;!A), plus a fixed list of pairs of transformations; x all operator/back-end combinations x both "
